@@ -446,8 +446,10 @@ class BycycleGroup(BycycleBase):
         for dim0, sig in enumerate(self.sigs):
             if self.n_dims == 3:
                 for dim1 in range(len(sig)):
+                    self.models[dim0][dim1].thresholds = self.thresholds
                     self.models[dim0][dim1].recompute_edges(reduction)
                     self.df_features[dim0][dim1] = self.models[dim0][dim1].df_features
             else:
+                 self.models[dim0].thresholds = self.thresholds
                  self.models[dim0].recompute_edges(reduction)
                  self.df_features[dim0] = self.models[dim0].df_features
